@@ -632,6 +632,21 @@ def spec_call(self, n, env):
     if name == "mdel":
         m, k = self.ev(A[0], env), self.ev(A[1], env)
         return ops.map_del(m, ops.coerce(k, m.s.k))
+    if name == "aset":
+        a, k, v = self.ev(A[0], env), self.ev(A[1], env), self.ev(A[2], env)
+        return V(z3.Store(a.t, ops.coerce(k, a.s.k).t, ops.coerce(v, a.s.v).t), a.s)
+    if name == "lam":
+        # lam(x, body): the total function x -> body (fresh array + definitional axiom); sort of x from U.var()
+        vname = A[0].id
+        ks = self.unit.var_sorts.get(vname, INT)
+        ops._qcnt[0] += 1
+        bv = z3.Const("%s!l%d" % (vname, ops._qcnt[0]), z(ks))
+        sub = E.Env(env.locals, env.heap, env.alloc, True, env.old, env.result, env.yielded, dict(env.binders))
+        sub.binders[vname] = V(bv, ks)
+        body = self.ev(A[1], sub)
+        arr = z3.Const("lam!%d" % ops._qcnt[0], z3.ArraySort(z(ks), z(body.s)))
+        self.assume(z3.ForAll([bv], z3.Select(arr, bv) == body.t, patterns=[z3.Select(arr, bv)]))
+        return V(arr, ArrS(ks, body.s))
     if name == "is_none":
         return V(ops.is_none(self.ev(A[0], env)), BOOL)
     if name == "some":          # value inside an Opt
@@ -705,7 +720,7 @@ def quantifier(self, n, env, is_forall):
         pats = [z3.MultiPattern(*terms)] if len(terms) > 1 else terms
     if is_forall:
         b = z3.Implies(rng, body) if rng is not None else body
-        return V(z3.ForAll([bv], b, patterns=pats) if pats else z3.ForAll([bv], b), BOOL)
+        return V(ops.forall([bv], b, patterns=pats), BOOL)
     b = z3.And(rng, body) if rng is not None else body
     return V(z3.Exists([bv], b), BOOL)
 
